@@ -156,3 +156,11 @@ Example idx_update_through_root_refused :
   | (rs, committed, st', _) => rs = [Some EOther] /\ committed = false
   end.
 Proof. vm_compute. split; reflexivity. Qed.
+
+(* mixed state st1 (system b1, ordinary b2): the hypotheses of ordinary_update_unaffected_any hold for b2, not for b1 *)
+Example casc_strip_wf : wf_strip_b casc_schema = true.
+Proof. vm_compute. reflexivity. Qed.
+Example idx_strip_wf : wf_strip_b idx_schema = true.
+Proof. vm_compute. reflexivity. Qed.
+Example noflag_instance : NoFlag st1 (root_of casc_schema n_bx) [51].
+Proof. intros e0 H. vm_compute in H. inversion H; subst. vm_compute. discriminate. Qed.
